@@ -181,10 +181,13 @@ func c07CheckDir(t *rapid.T, dir string, m *c07Model, all []*vmodel.CountFile, w
 		if dup {
 			t.Fatalf("%s: local.%s.json lists a program build twice", when, w)
 		}
-		if !overflow {
-			if d := vmodel.DiffProgs(want, got); d != "" {
-				t.Fatalf("%s: local.%s.json differs from the sums over exactly the week's files: %s", when, w, d)
-			}
+		if overflow {
+			// sums beyond int64 are not held to a value; the presence of every name and all other values are
+			ovf := vmodel.Overflowed(fs)
+			want, got = vmodel.ZeroValues(want, ovf), vmodel.ZeroValues(got, ovf)
+		}
+		if d := vmodel.DiffProgs(want, got); d != "" {
+			t.Fatalf("%s: local.%s.json differs from the sums over exactly the week's files: %s", when, w, d)
 		}
 	}
 	for w := range m.local {
